@@ -474,9 +474,15 @@ def consumers(rep, prog):
             if w in got:
                 rep.ok("C18.consumers", prog, None, None, "%s is read by %s" % (field.split("::")[1], w))
             elif not prog.by_qn.get(w):
-                # the consumer named by the frozen table no longer exists as a function (merged into its caller, renamed): where
-                # the parameter is consumed now is not decided
-                raise AnalysisBroken("consumer table: %s (consumer of %s) is no longer a function of the program; readers found: %s" % (w, field, ", ".join(sorted(got)) or "none"))
+                # the consumer named by the frozen table no longer exists as a function (merged into its caller, renamed): the
+                # parameter must then be read by another function of the same class that the table does not already name
+                cls_ = w.rsplit("::", 1)[0]
+                others = sorted(g for g in got if g.startswith(cls_ + "::") and g not in wants)
+                if others:
+                    rep.ok("C18.consumers", prog, None, None, "%s is read by %s (%s no longer exists: merged / renamed)" % (field.split("::")[1], ", ".join(others), w))
+                else:
+                    rep.violation("C18.consumers", prog, None, None, "%s no longer read by %s" % (field.split("::")[1], w),
+                                  "the parameter %s must be consumed by %s, which no longer exists, and no other function of %s reads it; readers found: %s" % (field, w, cls_, ", ".join(sorted(got)) or "none"))
             else:
                 rep.violation("C18.consumers", prog, None, None, "%s no longer read by %s" % (field.split("::")[1], w),
                               "the parameter %s must be consumed by %s (it governs that behaviour); readers found: %s" % (field, w, ", ".join(sorted(got)) or "none"))
